@@ -612,7 +612,7 @@ class Robust:
             return "asan:%s:%s" % (kind, lib[0] if lib else "?")
         if "LeakSanitizer" in (err or "") or "memory leak after case" in (err or ""):
             alloc = [fn for fn in lib if fn not in ("malloc", "calloc", "realloc", "strdup", "strndup")]
-            return "leak:%s:%s" % (entry, alloc[0] if alloc else "?")
+            return "leak:%s" % (alloc[0] if alloc else "?")
         if out.startswith("TIMEOUT"):
             return "timeout:%s:%s" % (entry, shape or label.split(":")[0])
         if out.startswith("CRASH"):
@@ -621,6 +621,9 @@ class Robust:
                 return "assert:%s" % (am.group(2) if am else entry)
             # release build: no report; a deep / long input that kills the process is taken for the stack overflow
             return "stack-overflow:%s:?" % shape if shape else "crash:%s" % entry
+        m = re.search(r"!leak\(([^,)]*),([^)]*)\)", out)
+        if m:
+            return "leak:%s" % m.group(1)
         bang = re.findall(r"!([a-z-]+)", out)
         return "post:%s:%s" % (bang[0] if bang else "?", entry)
 
